@@ -485,3 +485,81 @@ Proof.
     + intros ->. exists ts; split; [reflexivity|assumption].
     + intros (t & H & _). inversion H; reflexivity.
 Qed.
+
+(* ---------- frr-k8s variant, emission as a blocking send ---------- *)
+Definition dkreachable (s : dkst) : Prop := exists l, dkrun false dkinit l = Some s.
+
+Lemma dkrun_app d s l1 l2 :
+  dkrun d s (l1 ++ l2) = match dkrun d s l1 with Some s' => dkrun d s' l2 | None => None end.
+Proof.
+  revert s; induction l1 as [|e l1 IH]; intros s; simpl; [reflexivity|].
+  destruct (dkstep d s e); [apply IH|reflexivity].
+Qed.
+
+Definition dkinv (s : dkst) : Prop :=
+  (dk_pending s = true -> dk_timer s = true \/ dk_sending s = true) /\ (dk_sending s = true -> dk_timer s = false).
+
+Lemma dkinv_step s e s' : dkinv s -> dkstep false s e = Some s' -> dkinv s'.
+Proof.
+  intros [I1 I2] H. destruct e; simpl in H.
+  - destruct (dk_sending s); [discriminate|]. inversion H; subst. split; simpl; [auto|discriminate].
+  - destruct (dk_timer s) eqn:T; destruct (dk_sending s) eqn:S; simpl in H; try discriminate.
+    inversion H; subst. split; simpl; auto.
+  - destruct (dk_sending s) eqn:S; [|discriminate]. inversion H; subst. split; simpl; discriminate.
+  - discriminate.
+Qed.
+
+Lemma dkreachable_inv s : dkreachable s -> dkinv s.
+Proof.
+  intros [l H]. revert s H. induction l as [|e l IH] using rev_ind; intros s H.
+  - inversion H; subst. split; simpl; discriminate.
+  - rewrite dkrun_app in H. destruct (dkrun false dkinit l) as [s0|] eqn:E; [|discriminate].
+    simpl in H. destruct (dkstep false s0 e) eqn:E2; [|discriminate]. inversion H; subst.
+    eapply dkinv_step; [apply IH; reflexivity|exact E2].
+Qed.
+
+(* a fired timer's notification is delivered or stays pending in the send: never dropped *)
+Lemma notification_not_dropped s : dkreachable s -> dk_pending s = true -> dk_timer s = true \/ dk_sending s = true.
+Proof. intros Hr. apply (proj1 (dkreachable_inv s Hr)). Qed.
+
+(* ... and it can always be delivered: at most an expiry and a delivery, no further notification *)
+Lemma delivery_progress s : dkreachable s -> dk_pending s = true ->
+  exists l s', length l <= 2 /\ (forall e, In e l -> e = DExpire \/ e = DDeliver) /\
+               dkrun false s l = Some s' /\ dk_pending s' = false /\ dk_out s' = N.succ (dk_out s).
+Proof.
+  intros Hr Hp. destruct (dkreachable_inv s Hr) as [I1 I2]. destruct (dk_sending s) eqn:S.
+  - exists [DDeliver]. eexists. split; [simpl; lia|]. split; [intros e [<-|[]]; auto|].
+    simpl. rewrite S. split; [reflexivity|]. split; reflexivity.
+  - destruct (I1 Hp) as [T|X]; [|congruence].
+    exists [DExpire; DDeliver]. eexists. split; [simpl; lia|]. split; [intros e [<-|[<-|[]]]; auto|].
+    simpl. rewrite T, S. simpl. split; [reflexivity|]. split; reflexivity.
+Qed.
+
+(* the two-step model refines the atomic one (KFire = the delivery) *)
+Lemma dk_refines_from s0 l s : dkinv s0 -> dkrun false s0 l = Some s -> krun (dk_abs s0) (dk_collapse l) = Some (dk_abs s).
+Proof.
+  revert s0; induction l as [|e l IH]; intros s0 Hi H; simpl in *.
+  - inversion H; subst; reflexivity.
+  - destruct (dkstep false s0 e) as [s1|] eqn:E; [|discriminate].
+    pose proof (dkinv_step _ _ _ Hi E) as Hi1. specialize (IH _ Hi1 H). destruct Hi as [_ I2].
+    destruct e; simpl in E.
+    + destruct (dk_sending s0); [discriminate|]. inversion E; subst. simpl. exact IH.
+    + destruct (dk_timer s0) eqn:T; destruct (dk_sending s0) eqn:S; simpl in E; try discriminate.
+      inversion E; subst. unfold dk_abs in *. simpl in *. rewrite T, S. exact IH.
+    + destruct (dk_sending s0) eqn:S; [|discriminate]. inversion E; subst. simpl.
+      unfold dk_abs at 1. simpl. rewrite S, orb_true_r. unfold dk_abs in IH. simpl in IH.
+      rewrite (I2 eq_refl) in IH. exact IH.
+    + discriminate.
+Qed.
+
+Lemma dk_refines l s : dkrun false dkinit l = Some s -> krun kinit (dk_collapse l) = Some (dk_abs s).
+Proof. apply (dk_refines_from dkinit). split; simpl; discriminate. Qed.
+
+(* what a non-blocking send adds: a run that ends with a pending notification, no timer, nothing in flight *)
+Lemma dropping_send_loses_notification :
+  exists s, dkrun true dkinit [DNotify; DExpire; DDrop] = Some s /\
+            dk_pending s = true /\ dk_timer s = false /\ dk_sending s = false /\ dk_out s = 0%N /\
+            forall e, e <> DNotify -> dkstep true s e = None.
+Proof.
+  eexists. split; [reflexivity|]. simpl. repeat split. intros e He. destruct e; try reflexivity. congruence.
+Qed.
